@@ -34,6 +34,14 @@ CHECKS = {
          "TLA+ recipient logic + TLC trace validation; sampled bodies"),
  "C08": ("model_checking", "ConnLife.tla: handler.Handle with its three goroutines, the disconnect channel, the scheduler queue, context and wait group; TLC checks DisconnectAtMostOnce, ReturnedMeansDisconnected, NeverStuck and the liveness property HandleReturns for all placements of client frames/closes (and refutes the two unrepaired designs). Wire level (L2): fault class x life point scenarios on the real server over sockets with same-session and other-session witnesses, gauges and goroutine profile; every handler's observed event stream is validated by TLC against ConnLife (ConnTrace, silent steps).", "5 C08",
          "TLA+ connection-grain model + TLC safety/liveness + wire-level trace validation"),
+ "C09": ("model_checking", "(A) real handlers under a cooperative scheduler (every Lock/RLock of the hagall packages is a gate, Go RWMutex semantics incl. waiting writers): all interleavings with bounded preemptions of the catalogue blocks and seeded random schedules of blocks of up to 16 connections - no state with unfinished tasks and none enabled; (B) LockSkeleton.tla: lock programs EXTRACTED from executions of the code under test, TLC explores all interleavings of 3-4 handlers for deadlock; (C) lock-discipline table from the specification as a lead generator; (D) wire-level real-thread stress under the Go race detector (named by the property's own quantifier) decides the unsynchronised-access clause.", "5 C09",
+         "TLA+ lock skeleton from extracted lock programs + cooperative-scheduler exploration of the real code + race detector"),
+ "C15": ("model_checking", "Auth.tla: decision table (secret none/s1/s2 x token class per carrier x bearer prefix x endpoint) with TLC; every row concretised with real JWTs against the real VerifyAuthToken handshake and VerifyAuthTokenHandler middleware mounted like cmd/main.go with a harness-owned inner handler; AuthTrace compares admitted/entered with Admit(row).", "5 C15",
+         "TLA+ decision table + concretised rows on the real handshake/middleware"),
+ "C19": ("model_checking", "Receipt.tla (bounded queue, non-blocking submit with three answers, verify, forward at most once; safety + liveness with TLC); receipt scenarios on the real HandleReceipt + receipt.ReceiptHandler with an injected small queue and a harness-owned credit-service endpoint (up/slow/down); ReceiptTrace checks answers, iff-forwarding (validity computed independently by the harness), at-most-once, unchanged.", "5 C19",
+         "TLA+ queue model + trace validation of real receipt scenarios"),
+ "C20": ("model_checking", "Grid.tla: transcription of mergeQuads' four edge loops on integer rectangles, completeness checked by TLC for all rectangle pairs on a lattice; GridTrace: the real RegularGrid after every insertion/join/departure projected exactly to absolute integer cells - Complete, BoundsContain, CountMatches, RegionAll, CentreRay, retention, legality of each step and (single merge) equality with MergeUpdate; Geom: real primitives on an integer lattice vs exact definitions.", "5 C20",
+         "TLA+ transcription of the index update + exact integer projection of the real grid + trace validation"),
  "C17": ("model_checking", "FlagsMC: class table of the ten flags over all 2048 subsets (incl. unknown name). Paired runs of the real code: the same history under flag set F and under no flag, merged step by step; Ok_C17 requires equal logged state/result and out_F = FilterSeq(F, out_0) per recipient.", "5 C17",
          "TLA+ class table + paired-run trace validation"),
  "C18": ("model_checking", "Latency.tla exhaustively (all answer orders with unknown/answered/replayed ids and restarts); all short and seeded long scripts on the real code under a virtual clock; LatencyTrace checks protocol steps, refusals, the decoded report, signer recovery flag and integer statistics.", "5 C18",
